@@ -22,6 +22,15 @@ def main():
             for e in c['edits']:
                 p = os.path.join(tmp, e['file'])
                 s = open(p).read()
+                if e.get('regex'):
+                    import re
+                    s2 = re.sub(e['old'], e['new'], s)
+                    if s2 == s:
+                        okapply = False
+                        print('%-40s CANNOT APPLY (regex matches nothing in %s)' % (c['id'], e['file']))
+                        break
+                    open(p, 'w').write(s2)
+                    continue
                 if e['old'] not in s:
                     okapply = False
                     print('%-40s CANNOT APPLY (pattern not found in %s)' % (c['id'], e['file']))
